@@ -314,9 +314,9 @@ Lemma enc_loop_spec b s cps : utf8_string s cps -> forall fuel n st e w,
     e_delta (fst (encode_pass cps n b e))
       <= (if count_eq n cps =? 0 then e_delta e else 0) + N.of_nat (length cps).
 Proof.
-  induction 1 as [|bs v rest cps W S IH]; intros fuel n st e w Hf HR Hd Hb Hh Hbh Ht Ht2.
+  induction 1 as [|bs v rest cps W US IH]; intros fuel n st e w Hf HR Hd Hb Hh Hbh Ht Ht2.
   - right. exists st. destruct fuel; cbn [enc_loop encode_pass count_eq fst snd rev app length] in *;
-      (split; [reflexivity|]); (split; [exact HR|]); repeat split; try lia.
+      (split; [reflexivity|]); (split; [exact HR|]); repeat split; try lia; cbn; lia.
   - destruct (wf_cons bs v W) as (b0 & bs' & ->).
     rewrite app_length in Hf. cbn [length] in Hf.
     destruct fuel as [|f]; [lia|].
@@ -333,7 +333,7 @@ Proof.
       destruct (N.eqb_spec (u32 (delta + 1)) 0) as [Z|NZ]; [left; reflexivity|].
       assert (Hd1 : delta + 1 < 4294967296).
       { unfold u32 in NZ. destruct (N.eq_dec (delta + 1) 4294967296) as [E|E]; [rewrite E in NZ; cbn in NZ; lia|lia]. }
-      rewrite u32_small in * by lia.
+      rewrite u32_small in * by lia. rewrite ?N.add_0_l in *.
       destruct (IH f n (mkP (delta + 1) h bias frst todo) (mkE (delta + 1) bias h) w) as [L|(st' & E1 & E2 & E3 & E4 & E5 & E6 & E7)];
         try (cbn [p_todo e_delta e_bias e_h]; lia).
       { repeat split; assumption. }
@@ -352,7 +352,7 @@ Proof.
         rewrite EA. rewrite (u32_small (h + 1)) by lia.
         rewrite (usub_small todo 1) by lia.
         set (bias2 := adapt delta (h + 1) frst) in *.
-        rewrite R4. fold bias2.
+        rewrite <- R4. fold bias2.
         destruct (encode_pass cps n b (mkE 0 bias2 (h + 1))) as [e' out'] eqn:EP.
         destruct (IH f n (mkP 0 (h + 1) bias2 false (todo - 1)) (mkE 0 bias2 (h + 1))
                     (rev (encode_int (S (N.size_nat delta)) delta 36 bias) ++ w))
@@ -366,7 +366,8 @@ Proof.
         replace (1 + count_eq n cps =? 0) with false by (symmetry; apply N.eqb_neq; lia).
         repeat split; try lia.
         destruct (count_eq n cps =? 0); lia.
-      * destruct (IH f n (mkP delta h bias frst todo) (mkE delta bias h) w)
+      * rewrite ?N.add_0_l in *.
+        destruct (IH f n (mkP delta h bias frst todo) (mkE delta bias h) w)
           as [L|(st' & E1 & E2 & E3 & E4 & E5 & E6 & E7)];
           try (cbn [p_todo e_delta e_bias e_h]; lia).
         { repeat split; assumption. }
